@@ -16,7 +16,7 @@ pub static DEF: PropDef = PropDef {
     id: "C19",
     engine: "wfsim panic",
     level: "exploration",
-    rule: "one run = 1-3 tasks (real OS threads, one baton), each executing a generated structured program of <= 7 (quick) / <= 10 (thorough) steps over {enable, disable, install hook, set fallback Continue, query backtrace, catch_panic{..} nested <= 4 (optionally owning a value whose Drop enters a frame, or enters a frame that catches a panic of its own, while the outer panic unwinds), panic with a unique message (String / &'static str / non-string payload; long, multi-byte, control-character shapes), a panic recovered by a plain catch_unwind, bursts of caught panics}, interleaved by the seeded scheduler between steps and at the in-repo points inside panic_catcher_set_hook (after flag load / take_hook / set_hook) and catch_panic (after start / after catch_unwind), followed after a barrier by the epilogue `disable; panic` on every task; all observations are compared with the ModelCatcher (DESIGN §11) and a per-run sentinel hook installed before the catcher's; non-trivial = at least one panic fired and (>= 2 tasks with a pre-emption, or a nested catch); distinct = distinct choice tapes",
+    rule: "one run = 1-3 tasks (real OS threads, one baton), each executing a generated structured program of <= 7 (quick) / <= 10 (thorough) steps over {enable, disable, install hook, set fallback Continue, query backtrace, catch_panic{..} nested <= 4 (optionally owning a value whose Drop enters a frame, or enters a frame that catches a panic of its own, while the outer panic unwinds), panic with a unique message (String / &'static str / non-string payload; long, multi-byte, control-character shapes), a panic recovered by a plain catch_unwind, a panic whose payload's own destructor panics, bursts of caught panics}, interleaved by the seeded scheduler between steps and at the in-repo points inside panic_catcher_set_hook (after flag load / take_hook / set_hook) and catch_panic (after start / after catch_unwind), followed after a barrier by the epilogue `disable; panic` on every task; all observations are compared with the ModelCatcher (DESIGN §11) and a per-run sentinel hook installed before the catcher's; non-trivial = at least one panic fired and (>= 2 tasks with a pre-emption, or a nested catch); distinct = distinct choice tapes",
     runs_quick: 300_000,
     runs_thorough: 8_000_000,
     directed: FIXED,
@@ -29,7 +29,7 @@ pub static DEF: PropDef = PropDef {
         "while some task is between take_hook and set_hook the process hook is std's default by construction: no sentinel / message-content expectation is attached to panics fired in that window",
         "PANIC_CATCHER_HOOK_SET is reset between runs through the guarded test-only hook",
     ],
-    required_probes: &["c19.panic_caught", "c19.panic_escaped", "c19.nested_noncatching_outer", "c19.install", "c19.query", "c19.epilogue", "c19.install_lock_contended", "c19.transparent", "c19.static_payload", "c19.nonstring_payload", "c19.preempted_inside_previous_hook", "c19.catch_during_unwind", "c19.caught_burst", "c19.panic_caught_during_unwind", "c19.recovered_panic"],
+    required_probes: &["c19.panic_caught", "c19.panic_escaped", "c19.nested_noncatching_outer", "c19.install", "c19.query", "c19.epilogue", "c19.install_lock_contended", "c19.transparent", "c19.static_payload", "c19.nonstring_payload", "c19.preempted_inside_previous_hook", "c19.catch_during_unwind", "c19.caught_burst", "c19.panic_caught_during_unwind", "c19.recovered_panic", "c19.payload_drop_panicked", "c19.recovered_in_destructor_frame"],
     extra: None,
 };
 
@@ -138,6 +138,10 @@ enum Op {
     /// panic with a payload that is neither `&str` nor `String`: there is no message to demand, but the text
     /// returned by catch_panic must not be an earlier panic's
     PanicAny,
+    /// panic with a payload whose own destructor panics (with a unique message): the catching frame that ends up
+    /// dropping the payload does not return; the second panic goes on from that frame's call site like any other
+    /// (only inside at least one catching frame - otherwise this is PanicAny)
+    PanicBomb,
 }
 
 fn render(ops: &[Op]) -> String {
@@ -157,6 +161,7 @@ fn render(ops: &[Op]) -> String {
             Op::CaughtBurst(n) => format!("{n} x catch{{panic}}"),
             Op::PanicStatic => "panic-static".to_string(),
             Op::PanicAny => "panic-any".to_string(),
+            Op::PanicBomb => "panic-with-payload-whose-drop-panics".to_string(),
         })
         .collect::<Vec<_>>()
         .join("; ")
@@ -174,10 +179,11 @@ fn gen_ops(budget: &mut usize, depth: usize) -> Vec<Op> {
         match k {
             0 => out.push(Op::Enable),
             1 => {
-                out.push(match choose_w(&[6, 2, 1], "prog.payload") {
+                out.push(match choose_w(&[12, 4, 2, 1], "prog.payload") {
                     0 => Op::Panic,
                     1 => Op::PanicStatic,
-                    _ => Op::PanicAny,
+                    2 => Op::PanicAny,
+                    _ => Op::PanicBomb,
                 });
                 break; // anything after a panic in the same block is dead code
             }
@@ -201,6 +207,40 @@ fn gen_ops(budget: &mut usize, depth: usize) -> Vec<Op> {
 }
 
 /// Dropped when the owning closure returns or unwinds: enters and leaves a (successful) catch_panic.
+thread_local! {
+    /// set by `Bomb::drop` right before it panics: was the catcher's hook in place (and a catching frame left below),
+    /// i.e. will the frame that catches the second panic find its text recorded
+    static BOMB_RECORDED: std::cell::Cell<Option<bool>> = const { std::cell::Cell::new(None) };
+}
+
+/// A panic payload whose destructor panics.
+struct Bomb {
+    task: usize,
+    msg: String,
+    /// catching frames below the frame that will catch the payload (what the nesting level must be when it is dropped)
+    below: usize,
+    armed: std::cell::Cell<bool>,
+}
+
+impl Drop for Bomb {
+    fn drop(&mut self) {
+        if !self.armed.get() {
+            return;
+        }
+        let hs = hook_state();
+        let expect = match hs {
+            HookState::InTransit => None,
+            HookState::Installed if self.below > 0 => Some(false),
+            _ => Some(true),
+        };
+        let (task, msg) = (self.task, self.msg.clone());
+        g(|s| s.expect.push((task, msg.clone(), expect)));
+        BOMB_RECORDED.with(|c| c.set(Some(hs == HookState::Installed && self.below > 0)));
+        kernel::count("c19.payload_drop_panicked");
+        panic!("{}", msg);
+    }
+}
+
 struct CatchInDrop {
     /// (task, message): the nested frame panics with this message - only if catching is enabled at that moment (a
     /// transparent catch_panic would let the panic out of a destructor, which aborts the process when unwinding)
@@ -281,6 +321,8 @@ struct Pending {
     msg: String,
     frame: Option<usize>,
     content_expected: bool,
+    /// the panic is the one a `Bomb` payload raises when dropped: whether its text is recorded is known only then
+    bomb: bool,
     /// messages of this task's earlier panics: a returned text that contains one of them is stale
     earlier: Vec<String>,
 }
@@ -429,7 +471,10 @@ fn exec_ops(ops: &[Op], m: &mut TaskModel) {
                         crate::tr!("t{}: catch_panic #{idx} returned Err({:?})", m.task, text.lines().next().unwrap_or(""));
                         match m.pending.take() {
                             None => kernel::fail(v("err-without-panic", "", format!("task {}: catch_panic returned Err({:?}) but nothing panicked", m.task, text.lines().next()))),
-                            Some(p) => {
+                            Some(mut p) => {
+                                if p.bomb {
+                                    p.content_expected = BOMB_RECORDED.with(|c| c.take()).unwrap_or(false);
+                                }
                                 kernel::count("c19.panic_caught");
                                 if p.frame != Some(idx) {
                                     kernel::fail(v(
@@ -484,10 +529,28 @@ fn exec_ops(ops: &[Op], m: &mut TaskModel) {
                     kernel::fail(v("panic-swallowed", "plain-catch_unwind", format!("task {}: {msg:?} did not unwind", m.task)));
                 }
             }
-            Op::Panic | Op::PanicStatic | Op::PanicAny => {
+            Op::PanicBomb if depth_catching(m) > 0 => {
+                m.counter += 1;
+                let msg = format!("b{}-{}-{};", m.run, m.task, m.counter);
+                let fi = m.frames.iter().rposition(|c| *c).unwrap();
+                let below = m.frames[..fi].iter().filter(|c| **c).count();
+                m.pending = Some(Pending {
+                    msg: msg.clone(),
+                    frame: m.frames[..fi].iter().rposition(|c| *c),
+                    content_expected: false,
+                    bomb: true,
+                    earlier: m.msgs.clone(),
+                });
+                m.msgs.push(msg.clone());
+                m.last = Last::Unknown;
+                kernel::count("c19.payload_drop_panics");
+                crate::tr!("t{}: panic with a payload whose drop panics with {msg:?} (caught by frame #{fi}, {below} catching frames below it)", m.task);
+                std::panic::panic_any(Bomb { task: m.task, msg, below, armed: std::cell::Cell::new(true) });
+            }
+            Op::Panic | Op::PanicStatic | Op::PanicAny | Op::PanicBomb => {
                 m.counter += 1;
                 let is_static = matches!(op, Op::PanicStatic);
-                let is_any = matches!(op, Op::PanicAny);
+                let is_any = matches!(op, Op::PanicAny | Op::PanicBomb);
                 // static payloads cannot carry the run number: unique per (task, counter) within the run is enough,
                 // because the sentinel log and the model are per run
                 const STATIC_MSGS: [[&str; 4]; 3] = [
@@ -527,6 +590,7 @@ fn exec_ops(ops: &[Op], m: &mut TaskModel) {
                     msg: msg.clone(),
                     frame,
                     content_expected: hs == HookState::Installed,
+                    bomb: false,
                     earlier: m.msgs.clone(),
                 });
                 if !msg.is_empty() {
@@ -594,6 +658,10 @@ fn task_body(task: usize, run: u64, prog: Vec<Op>) {
             }
         }
         Err(payload) => {
+            if let Some(b) = payload.downcast_ref::<Bomb>() {
+                // (only if a catching frame let it through: reported below as escaped; do not let it go off here)
+                b.armed.set(false);
+            }
             let got = kernel::panic_message(&*payload);
             match m.pending.take() {
                 Some(p) if p.frame.is_none() && (p.msg == got || (p.msg.is_empty() && got == "<non-string panic payload>")) => {}
